@@ -4,12 +4,11 @@ import dv, pool_common as pc
 META = {
     'category': 'proof',
     'technique': 'Coq accounting invariant over all accepted event sequences of the event-level ThreadPool model (workRemaining = queued + held/executing + '
-                 'local batches + owed decrements + unplaced additions + leaked) + refutation witness by vm_compute + event-level lockstep of the real pool '
-                 'with the counter read at every quiescent point',
-    'text': 'C08_accounting_invariant holds for every accepted trace; at quiescence workRemaining_ equals the number of tasks that a ring / steal-ring drain of '
-            'resizeLocked or ~ThreadPool ran with task() and no decrement.  C08_refuted: the real trace of "scheduleBulk(2) to the rings of a parked 4-thread pool, '
-            'resize(2) before the workers pop" leaves +2 forever (known finding, replayed deterministically on every run); C08_holds_except: histories without '
-            'such a drain pop end at exactly 0.',
+                 'local batches + owed decrements + unplaced additions) + event-level lockstep of the real pool with the counter read at every quiescent point + '
+                 'hook-free public-effect regression (schedule() on an idle pool is queued, not run inline, after many resize drains)',
+    'text': 'C08_accounting_invariant and C08_workRemaining_zero_at_quiescence hold for every accepted trace (any submissions, task-set use, resizes and '
+            'destructor drains).  The former counterexample (ring / steal-ring drains of resizeLocked and ~ThreadPool ran task() with no decrement; fixed by '
+            'commit 8892b78) is a regression Example in Coq and is replayed first on every run, together with the public-effect case.',
     'note': 'Trusted: Coq kernel; moodycamel and MpmcRingBuffer atomicity at event granularity; harness/vsched_pool.h. No axioms.',
 }
 ASSUMPTIONS = [
@@ -21,11 +20,34 @@ ASSUMPTIONS = [
 
 def describe(c, p, v):
     bad = [(s['pos'], s['wr']) for s in p['snaps'] if s['wr'] != 0 and s['central'] == 0 and not any(s['rings']) and not any(s['steals'])]
-    return ('workRemaining_ != 0 at a quiescent point with all tiers empty: (event position, value) %s, model leaked=%d :: %s' % (bad[:4], v[7], pc.line_of(c)[:200]), pc.KEY_C08)
+    return ('workRemaining_ != 0 at a quiescent point with all tiers empty: (event position, value) %s, model workRemaining at the end=%d :: %s' % (
+        bad[:4], v[7], pc.line_of(c)[:200]), None)
+
+
+def public_effect(ctx, rows):
+    """hook-free: on the C08-public-effect case the last task (plain schedule() on the idle 1-thread pool) must run on a pool thread"""
+    for c, p, o, v in rows:
+        if c.get('name') != 'C08-public-effect':
+            continue
+        gens = [(t, a) for t, name, a, b in p['events'] if name == 'gen']
+        if p['status'] != 0 or not gens:
+            ctx.broken.append('C08 public-effect case did not complete: status %d' % p['status'])
+            return
+        sub_tid, last = gens[-1]
+        runner = [t for t, name, a, b in p['events'] if name == 'body.begin' and a == last]
+        ctx.cov['public_effect'] = {'task': last, 'submitter_tid': sub_tid, 'runner_tid': runner[:1], 'tasks_drained_by_resizes': sum(
+            1 for e in p['events'] if e[1] == 'pool.drain.ring' and e[3] == 0)}
+        if runner and runner[0] == sub_tid:
+            ctx.violation('schedule() on an idle pool ran the task inline on the caller after %d resize drains: the pending-work accounting did not return to '
+                          'zero (a freshly constructed pool of that size queues it)' % ctx.cov['public_effect']['tasks_drained_by_resizes'],
+                          {'case': pc.line_of(c), 'cmd': 'echo "<case>" | build/harness/h_pool-*', 'output': o[:2000]})
+        return
+    ctx.broken.append('C08 public-effect case missing')
 
 
 def run(ctx):
     ctx.prove(models=['Model/PoolCheck.v', 'Model/C08Check.v'])
     rows = pc.run_pool(ctx, 'C08')
     pc.report(ctx, 'C08', rows, describe)
+    public_effect(ctx, rows)
     ctx.cov['cases_with_ring_drain_pop'] = sum(1 for _, p, _, _ in rows if any(e[1] in ('pool.drain.ring', 'pool.drain.steal') for e in p['events']))
